@@ -31,9 +31,9 @@ Require Import MW.Ledger.Proofs MW.Ledger.ImportProofs.
    chain the handler has not been told about yet, and other wallets in the same database are
    covered by the correspondence check (harness/cmd/c07), by C07_cursor_pull_back and
    C07_unready_until_done, and — where the code fails — by C07_import_abandoned_refuted. *)
-Theorem C07_import_equals_live_partial : forall p B c w own st0 j,
+Theorem C07_import_equals_live_partial : forall fx p B c w own st0 j,
   wf_chain c -> 0 < B -> importing p c w own 0 st0 ->
-  let st := batches p B c st0 w j in
+  let st := batches fx p B c st0 w j in
   (status_of st w = Some WReady ->
      ledger_of_chain p true own c = Ok (x_w st) /\ xreport st w = spec_report p own c w) /\
   (chain_height c < Z.of_nat j * B -> status_of st w = Some WReady) /\
@@ -48,11 +48,11 @@ Proof. exact import_start_importing. Qed.
 Print Assumptions C07_import_start.
 
 (* one batch, any cursor: the step the theorem above iterates *)
-Theorem C07_batch_step : forall p B c w own k st,
+Theorem C07_batch_step : forall fx p B c w own k st,
   wf_chain c -> 0 < B -> importing p c w own k st ->
   let stop := Z.min (k + B) (chain_height c) in
   exists st',
-    import_batch p B c st w = (st', IOk) /\
+    import_batch fx p B c st w = (st', IOk) /\
     credits (x_w st') = E p own (ptxs (upto stop c)) /\ synced (x_w st') = synced_of c /\
     (if stop =? chain_height c then status_of st' w = Some WReady else importing p c w own stop st').
 Proof. exact import_batch_step. Qed.
@@ -70,17 +70,17 @@ Print Assumptions C07_unready_until_done.
 
 (* only a committed batch whose range reaches the handler's tip hands the wallet over — for any node
    state, any store *)
-Theorem C07_handover_only_at_tip : forall p B n st w k st' o,
+Theorem C07_handover_only_at_tip : forall fx p B n st w k st' o,
   status_of st w = Some (WImporting k) ->
-  import_batch p B n st w = (st', o) ->
+  import_batch fx p B n st w = (st', o) ->
   status_of st' w = Some WReady ->
   o = IOk /\ fst (tip (x_w st)) <= k + B.
 Proof. exact batch_ready_only_at_tip. Qed.
 Print Assumptions C07_handover_only_at_tip.
 
 (* a batch that fails (retry or dropped task) leaves ledger, status and block records untouched *)
-Theorem C07_failed_batch_changes_nothing : forall p B n st w st' o,
-  import_batch p B n st w = (st', o) -> o <> IOk ->
+Theorem C07_failed_batch_changes_nothing : forall fx p B n st w st' o,
+  import_batch fx p B n st w = (st', o) -> o <> IOk ->
   x_w st' = x_w st /\ x_status st' = x_status st /\ x_brecs st' = x_brecs st.
 Proof. exact batch_failed_keeps_ledger. Qed.
 Print Assumptions C07_failed_batch_changes_nothing.
@@ -93,7 +93,7 @@ Theorem C07_cursor_pull_back : forall fx st h st' w k,
 Proof. exact rollback_pulls_cursor_back. Qed.
 Print Assumptions C07_cursor_pull_back.
 
-(* ------------------------------------------------------------------ the code fails here *)
+(* ------------------------------------------------------------------ the code as found failed here *)
 
 (* batch size 2.  Old chain 1-2-3-4 (block 1 pays the wallet); the twin has imported heights 1..2.
    The node reorganises from height 1: 2' pays the wallet (transaction 12), 3' spends that coin
@@ -123,7 +123,7 @@ Definition hist_abandon : list xevent :=
    XBatch 1; XProcess b5'; XBatch 1; XBatch 1; XBatch 1].
 
 Theorem C07_import_abandoned_refuted :
-  let s := xrun repaired p0 2 20000 old_chain hist_abandon in
+  let s := xrun as_found p0 2 20000 old_chain hist_abandon in
   wf_chain (xs_node s) /\
   fst (tip (x_w (xs_st s))) = chain_height (xs_node s) /\
   status_of (xs_st s) 1 = Some (WImporting 1) /\ use_wallet (xs_st s) 1 = UUnready /\
@@ -144,7 +144,14 @@ Print Assumptions C07_import_abandoned_refuted.
 (* a restart re-creates the task from the status row: the same history followed by a restart and two
    batches ends ready and correct *)
 Example C07_abandoned_import_resumes_after_restart :
-  let s := xrun repaired p0 2 20000 old_chain (hist_abandon ++ [XRestart; XBatch 1; XBatch 1; XBatch 1]) in
+  let s := xrun as_found p0 2 20000 old_chain (hist_abandon ++ [XRestart; XBatch 1; XBatch 1; XBatch 1]) in
+  status_of (xs_st s) 1 = Some WReady /\
+  xreport (xs_st s) 1 = spec_report p0 (key_owner (xs_st s)) (xs_node s) 1.
+Proof. vm_compute. split; reflexivity. Qed.
+
+(* repaired (the failed batch is retried): the same history ends ready and correct without a restart *)
+Example C07_retry_repaired_on_witness :
+  let s := xrun repaired p0 2 20000 old_chain hist_abandon in
   status_of (xs_st s) 1 = Some WReady /\
   xreport (xs_st s) 1 = spec_report p0 (key_owner (xs_st s)) (xs_node s) 1.
 Proof. vm_compute. split; reflexivity. Qed.
